@@ -184,3 +184,34 @@ def item(h):
     h.check('item-is-the-recorded-pair', 'len(r) == 2 and r[0] == xs[j] and r[1] * %s == ys[j]' % (VIS % ('k', 'k')), **e)
     h.check('x-y-id-columns', 'm.x[i] == xs[j] and m.y[i] * %s == ys[j] and m.id[i] == ids[j] and len(m.y) == n' % (VIS % ('k', 'k')), **e)
     h.check('reading-does-not-alter-the-monitor', 'len(m._x) == n and len(m._y) == n and forall(0, n, lambda q: m._x[q] == xs[q] and m._y[q] == ys[q])', **e)
+
+
+# ---------------------------------------------------------------------------- installing a monitor on a solver
+AS = 'mystic/abstract_solver.py'
+
+
+def _install(h, method, field):
+    """solver.Set{Generation,Evaluation}Monitor(m) with new=False: the data collected so far is kept -- the installed
+    monitor holds the old monitor's records followed by its own, and is the one the solver uses from now on"""
+    e = _two(h)          # a = the monitor being installed, b = the solver's current monitor
+    s = h.obj(AS + '::AbstractSolver', _energy_history=h.list_real('stale_energy_history'), _solution_history=None,
+              **{field: e['b'], '_stepmon' if field != '_stepmon' else '_evalmon': None})
+    h.call(h.getattr(s, method), e['a'])
+    e.update(s=s, x=h.field(e['a'], '_x'), y=h.field(e['a'], '_y'), ids=h.field(e['a'], '_id'), cur=h.field(s, field))
+    h.check('the-given-monitor-is-installed', 'same(cur, a)', **e)
+    h.check('earlier-records-come-first', 'len(a) == n + p and forall(0, p, lambda i: x[i] == bx0[i] and ids[i] == bid0[i] and '
+            'y[i] * %s == by0[i])' % (RATIO % ('kb', 'kb', 'ka', 'ka')), **e)
+    h.check('then-the-monitors-own-records', 'forall(0, n, lambda i: x[p + i] == ax0[i] and y[p + i] == ay0[i] and ids[p + i] == aid0[i])', **e)
+    _other_unchanged(h, e)
+    if field == '_stepmon':
+        h.check('cached-histories-resynchronised-with-the-new-monitor', 's._energy_history is None and s._solution_history is None', **e)
+
+
+def _prepend_loops_for(qual):
+    return _prepend_loops()
+
+
+contract('C20/SetGenerationMonitor', ['C20', 'C04'], AS + '::AbstractSolver.SetGenerationMonitor', loops=_prepend_loops(),
+         samples=200)(lambda h: _install(h, 'SetGenerationMonitor', '_stepmon'))
+contract('C20/SetEvaluationMonitor', ['C20', 'C04'], AS + '::AbstractSolver.SetEvaluationMonitor', loops=_prepend_loops(),
+         samples=200)(lambda h: _install(h, 'SetEvaluationMonitor', '_evalmon'))
